@@ -154,29 +154,33 @@ package goldilocks
 //@   requires canon(a) && canon(b)
 //@   ensures res.Limb == (a.Limb * b.Limb) % P
 
+// The non-reducing variants are exact over the integers: their precondition is the
+// absence of wrap-around in the BN254 scalar field, to be discharged at every call site.
+
 //@ func (p *Chip) AddNoReduce(a Variable, b Variable) (res Variable)
-//@   props C07
+//@   props C05 C07
 //@   circuit
-//@   ensures res.Limb == (a.Limb + b.Limb) % R
-//@   ensures implies(a.Limb + b.Limb < R, res.Limb % P == (a.Limb + b.Limb) % P)
+//@   requires a.Limb + b.Limb < R
+//@   ensures res.Limb == a.Limb + b.Limb
 
 //@ func (p *Chip) SubNoReduce(a Variable, b Variable) (res Variable)
-//@   props C07
+//@   props C05 C07
 //@   circuit
-//@   ensures res.Limb == (a.Limb + b.Limb * (P - 1)) % R
-//@   ensures implies(a.Limb + b.Limb * (P - 1) < R, res.Limb % P == (a.Limb - b.Limb) % P)
+//@   requires a.Limb + b.Limb * (P - 1) < R
+//@   ensures res.Limb == a.Limb + b.Limb * (P - 1)
+//@   ensures res.Limb % P == (a.Limb - b.Limb) % P
 
 //@ func (p *Chip) MulNoReduce(a Variable, b Variable) (res Variable)
-//@   props C07
+//@   props C05 C07
 //@   circuit
-//@   ensures res.Limb == (a.Limb * b.Limb) % R
-//@   ensures implies(a.Limb * b.Limb < R, res.Limb % P == (a.Limb * b.Limb) % P)
+//@   requires a.Limb * b.Limb < R
+//@   ensures res.Limb == a.Limb * b.Limb
 
 //@ func (p *Chip) MulAddNoReduce(a Variable, b Variable, c Variable) (res Variable)
-//@   props C07
+//@   props C05 C07
 //@   circuit
-//@   ensures res.Limb == (a.Limb * b.Limb + c.Limb) % R
-//@   ensures implies(a.Limb * b.Limb + c.Limb < R, res.Limb % P == (a.Limb * b.Limb + c.Limb) % P)
+//@   requires a.Limb * b.Limb + c.Limb < R
+//@   ensures res.Limb == a.Limb * b.Limb + c.Limb
 
 //@ func (p *Chip) ReduceWithMaxBits(x Variable, maxNbBits uint64) (res Variable)
 //@   props C05 C07
